@@ -8,6 +8,7 @@ import (
 	"strconv"
 	"strings"
 	"sync"
+	"sync/atomic"
 	"time"
 
 	"github.com/hprose/hprose-golang/v3/rpc/core"
@@ -36,6 +37,10 @@ type c16Case struct {
 	Retry   int       `json:"retry"`
 	Idem    bool      `json:"idem"`
 	Calls   []c16Call `json:"calls"`
+	// Warm > 0: before the traced calls this many goroutines make failing idempotent calls at the same time
+	// (untraced): the rotation index that FailoverConfig shares between the calls is advanced and wrapped
+	// around concurrently; the traced sequential calls then find it in whatever state that left
+	Warm int `json:"warm,omitempty"`
 }
 
 type c16Park struct {
@@ -81,8 +86,12 @@ func c16Run(t *tr.Writer, id int, c c16Case) {
 			panic(fmt.Sprintf("p:%s:%d", url, kk))
 		}
 	}
+	var warming int32
 	enter := func(ctx context.Context) (string, int, string) {
 		url := core.GetClientContext(ctx).URL.Host
+		if atomic.LoadInt32(&warming) == 1 {
+			return url, 0, "warm"
+		}
 		mu.Lock()
 		k++
 		kk := k
@@ -106,6 +115,9 @@ func c16Run(t *tr.Writer, id int, c c16Case) {
 	}
 	ioScripted := func(ctx context.Context, request []byte, next core.NextIOHandler) ([]byte, error) {
 		url, kk, o := enter(ctx)
+		if o == "warm" {
+			return nil, errors.New("warm-up failure")
+		}
 		v, err := produce(o, url, kk)
 		if err != nil {
 			return nil, err
@@ -134,6 +146,28 @@ func c16Run(t *tr.Writer, id int, c c16Case) {
 		client.Use(core.InvokeHandler(cluster.Broadcast), core.InvokeHandler(invScripted))
 	}
 	Watch(id, tr.Rec{"mode": c.Mode}, c)
+	if c.Warm > 0 {
+		atomic.StoreInt32(&warming, 1)
+		var wg sync.WaitGroup
+		start := make(chan struct{})
+		for g := 0; g < c.Warm; g++ {
+			wg.Add(1)
+			go func() {
+				defer wg.Done()
+				defer func() { _ = recover() }()
+				<-start
+				for i := 0; i < 400; i++ {
+					cc := core.NewClientContext()
+					cc.Items().Set("idempotent", true)
+					cc.Items().Set("retry", 2)
+					_, _ = client.InvokeContext(core.WithContext(context.Background(), cc), "f", nil)
+				}
+			}()
+		}
+		close(start)
+		wg.Wait()
+		atomic.StoreInt32(&warming, 0)
+	}
 	t.Reset(id, tr.Rec{"mode": c.Mode, "servers": names, "retry": c.Retry, "idem": c.Idem, "input": c})
 	for ci, call := range c.Calls {
 		mu.Lock()
@@ -331,7 +365,7 @@ func runC16(a Args) tr.Summary {
 				for _, idem := range []bool{false, true} {
 					for _, ov := range []string{"default", "true", "false"} {
 						for _, seq := range c16Seqs(retry+2, outs) {
-							run(c16Case{mode, servers, retry, idem, []c16Call{{ov, -1, seq, nil}}})
+							run(c16Case{mode, servers, retry, idem, []c16Call{{ov, -1, seq, nil}}, 0})
 						}
 					}
 				}
@@ -366,14 +400,25 @@ func runC16(a Args) tr.Summary {
 			}
 			calls = append(calls, c16Call{[]string{"default", "true", "false"}[rng.Intn(3)], r, seq, nil})
 		}
-		run(c16Case{mode, servers, retry, rng.Intn(3) != 0, calls})
+		run(c16Case{mode, servers, retry, rng.Intn(3) != 0, calls, 0})
+	}
+	// after a concurrent burst of failures (the shared rotation index has been advanced and wrapped around by
+	// several goroutines at once) failover still moves on from a failed server
+	nWarm := 6
+	if a.Tier == "thorough" {
+		nWarm = 40
+	}
+	for i := 0; i < nWarm; i++ {
+		servers := 2 + i%3
+		calls := []c16Call{{"true", -1, []string{"err", "ok"}, nil}, {"true", -1, []string{"err", "err", "ok"}, nil}, {"true", -1, []string{"panic", "ok"}, nil}}
+		run(c16Case{"failover", servers, 3, true, calls, 4 + 4*(i%3)})
 	}
 	// fan-out modes: every outcome vector x every completion order
 	for _, mode := range []string{"forking", "broadcast"} {
 		for servers := 1; servers <= 3; servers++ {
 			for _, seq := range c16Seqs(servers, outs) {
 				for _, ord := range c16Perms(servers) {
-					run(c16Case{mode, servers, 0, false, []c16Call{{"default", -1, seq, ord}}})
+					run(c16Case{mode, servers, 0, false, []c16Call{{"default", -1, seq, ord}}, 0})
 				}
 			}
 		}
